@@ -275,11 +275,18 @@ def gen_spec(R, *, n_lf=None, hc=False, small=False, kinds=None, vrl=None, rows=
             kind = what if what != 'other' else arg
             o = {'kind': kind, 'attrs': {}, 'set_name': tag, 'origin_reference': None}
             base = {'origin': 'ORG', 'channel': 'CH', 'frame': 'FR'}.get(kind, kind[:3].upper())
-            if R.random() < 0.25 and used_names.get(kind) and kind != 'channel':
+            if kind == 'channel' and arg[1] == 0 and arg[0] > 0 and R.random() < 0.4:
+                # a channel of a later frame may reuse the name of a channel of an earlier frame (copy number 1,
+                # automatic dataset name NAME__1): names only have to be unique within a frame
+                prev = [x['name'] for x in objs if x['kind'] == 'channel']
+                o['name'] = R.choice(prev)
+                used_names.setdefault(kind, []).append(o['name'])
+                o['_reused'] = True
+            elif R.random() < 0.25 and used_names.get(kind) and kind != 'channel':
                 o['name'] = R.choice(used_names[kind])          # repeated name -> copy number
             else:
                 o['name'] = f'{base}{li if n_lf > 1 else ""}{"-" if n_lf > 1 else ""}{len(objs)}' if (R.random() < 0.8 or kind == 'channel') else eflr.rstr(R, R.choice([1, 7, 30]))
-            used_names.setdefault(kind, []).append(o['name'])
+                used_names.setdefault(kind, []).append(o['name'])
             rows_schema = ATTRS[KINDS[kind][1]]
             p_assign = R.choice([0.0, 0.3, 0.6, 1.0]) if not small else R.choice([0.0, 0.3])
             skip = set()
@@ -346,7 +353,7 @@ def gen_spec(R, *, n_lf=None, hc=False, small=False, kinds=None, vrl=None, rows=
                 u = None
                 if us and R.random() < 0.3:
                     u = R.choice(ENUMS['Unit'][:40]) if hc or R.random() < 0.7 else R.choice(['unknown-unit', 'u' * 130])
-                o['attrs'][pyname] = {'v': v, 'units': u, 'route': R.choice(['plain', 'dict', 'setup'])}
+                o['attrs'][pyname] = {'v': v, 'units': u, 'route': R.choice(['plain', 'dict', 'setup', 'later'])}
             if kind != 'origin' and R.random() < 0.1:
                 o['origin_reference'] = R.choice([3, 128, 16384])
             objs.append(o)
@@ -358,7 +365,7 @@ def gen_spec(R, *, n_lf=None, hc=False, small=False, kinds=None, vrl=None, rows=
                 payload = ''.join(chr(R.randrange(32, 127)) for _ in range(min(n, 300)))
             lf['noformat'].append((R.choice(nfs), payload))
         spec['lfs'].append(lf)
-    data_kinds = ['inline', 'inline', 'dict'] + (['struct', 'struct'] if n_lf == 1 else [])
+    data_kinds = ['inline', 'inline', 'dict'] + (['struct', 'struct', 'hdf5'] if n_lf == 1 else [])
     if fastpath:
         # the structured array IS the frame: same field names, same order, nothing else -> no-copy path of
         # NumpyDataWrapper; same-size casts on 2-D channels, scalar casts, or none
@@ -419,9 +426,13 @@ def build(spec):
         for oi, o in enumerate(lf['objects']):
             method = getattr(L, KINDS[o['kind']][0])
             kw = {}
+            later = []
             for pyname, a in o['attrs'].items():
                 v = _resolve(a['v'], b.handles)
-                if a['route'] == 'dict' or (a['units'] is not None and a['route'] == 'plain'):
+                if a['route'] == 'later' and o['kind'] not in ('origin',) and pyname not in ('index_type',):
+                    later.append((pyname, v, a['units']))       # assigned after creation through .value / .units
+                    continue
+                if a['route'] == 'dict' or (a['units'] is not None and a['route'] in ('plain', 'later')):
                     v = {'value': v, 'units': a['units']} if a['units'] is not None else {'value': v}
                 elif a['route'] == 'setup':
                     v = AttrSetup(value=v, units=a['units'])
@@ -439,11 +450,19 @@ def build(spec):
                     kw['dataset_name'] = o['dataset_name']
                 if spec['write']['data_kind'] == 'inline':
                     kw['data'] = arr
-                else:
-                    b.data[o.get('dataset_name') or o['name']] = arr
             if o['kind'] == 'frame':
                 kw['channels'] = [b.handles[r.lf][r.idx] for r in o['channels']]
-            hs.append(method(o['name'], **kw))
+            item = method(o['name'], **kw)
+            if o['kind'] == 'channel' and spec['write']['data_kind'] != 'inline':
+                # the data set is supplied under the name the channel expects (explicit, or the automatic
+                # NAME / NAME__1 ... for a repeated channel name)
+                b.data[item.dataset_name] = b.arrays[-1][2]
+            for pyname, v, u in later:
+                attr = getattr(item, pyname)
+                attr.value = v
+                if u is not None:
+                    attr.units = u
+            hs.append(item)
         for (nfi, payload) in lf['noformat']:
             L.add_no_format_frame_data(hs[nfi], payload)
     kind = spec['write']['data_kind']
@@ -498,6 +517,8 @@ def write(spec, tmpdir, built=None, fname='out.dlis', prior=None, read_disk=Fals
             f.write(prior)
     elif os.path.exists(path):
         os.unlink(path)
+
+    spec['write'].setdefault('source_opts', {}).setdefault('tmpdir', tmpdir)
 
     def go():
         b = built or build(spec)
